@@ -30,7 +30,8 @@ Record site := mk_site {        (* "if use_graph_primitive is None: use_graph_pr
   s_fn : string; s_flag : cfgflag; s_not_acyclic : bool }.
 Record callrec := mk_call {     (* a call to a function that has a use_graph_primitive parameter *)
   c_caller : string; c_branch : branch; c_variant : variant; c_callee : string;
-  c_arg : argsrc; c_acy : acysrc; c_graph : bool (* the call passes a graph *) }.
+  c_arg : argsrc; c_acy : acysrc; c_graph : bool (* the call passes a graph *);
+  c_guarded : bool (* the call sits under a further, data-dependent condition *) }.
 Record emitrec := mk_emit { e_fn : string; e_branch : branch; e_op : native_op }.
 Record raiserec := mk_raise { r_fn : string; r_branch : branch; r_exc : string }.
 
@@ -215,10 +216,11 @@ Definition pyerr_of_name (s : string) : pyerr :=
 
 (* native operators posted by a call fn(..., [graph,] acyclic=acyclic, use_graph_primitive=arg)
    under cfg; [explicit] says whether a graph is passed (else it is inferred from a 2-D array /
-   grid frame).  Each emitting statement is counted once; loops around it are assumed to run at
-   least once. *)
+   grid frame); [dd] says whether the data-dependent conditions guarding some calls hold (today
+   one: the single-row / single-column test in active_vertices_not_adjacent_and_not_segmenting).
+   Each emitting statement is counted once; loops around it are assumed to run at least once. *)
 Fixpoint run (T : tables) (fuel : nat) (fn : string) (cfg : config) (arg : option bool)
-         (acyclic : bool) (explicit : bool) : res (list native_op) :=
+         (acyclic : bool) (explicit : bool) (dd : bool) : res (list native_op) :=
   match fuel with
   | O => Err RecursionError
   | S f =>
@@ -229,20 +231,21 @@ Fixpoint run (T : tables) (fuel : nat) (fn : string) (cfg : config) (arg : optio
       | None =>
           let here := map e_op (filter (fun e => (e.(e_fn) =? fn) && branch_active taken e.(e_branch)) T.(t_emits)) in
           let calls := filter (fun c => (c.(c_caller) =? fn) && branch_active taken c.(c_branch)
-                                        && variant_active c.(c_variant) explicit) T.(t_calls) in
+                                        && variant_active c.(c_variant) explicit
+                                        && (negb c.(c_guarded) || dd)) T.(t_calls) in
           let* sub := mapM (fun c =>
                               run T f c.(c_callee) cfg
                                   (match c.(c_arg) with ArgPass => now | ArgConst b => Some b | ArgOmitted => None end)
                                   (match c.(c_acy) with AcyPass => acyclic | AcyConst b => b end)
-                                  c.(c_graph)) calls in
+                                  c.(c_graph) dd) calls in
           Ok (here ++ concat sub)%list
       end
   end.
 
 Definition run_fuel : nat := 8.
 
-Definition emits (T : tables) (fn : string) (cfg : config) (arg : option bool) (acyclic explicit : bool) :=
-  run T run_fuel fn cfg arg acyclic explicit.
+Definition emits (T : tables) (fn : string) (cfg : config) (arg : option bool) (acyclic explicit dd : bool) :=
+  run T run_fuel fn cfg arg acyclic explicit dd.
 
 (* ------------------------------------------------------------------ helpers for the runner *)
 
